@@ -191,6 +191,28 @@ fn generate(cli: &Cli) -> (Vec<Case>, Vec<String>) {
         }
     }
 
+    // F9: a client frame that stalls for one or more keep-alive periods in the middle (a mobile
+    // client in a tunnel): whatever ticks were missed meanwhile, the connection goes on afterwards
+    {
+        let spec = BaseSpec { name: "long-stall", intent: Intent::Login, secret: true, lat: [100_000, 0, 0], extras: vec![(3_000, plugin_message(40)), (60_000, Pkt::ResourcePackResponse { uuid: 5, result: 0 })], no_target: false, ci_delay_ms: 0 };
+        let base = build_base(&spec, cli.seed ^ 0xfa);
+        let brun = run(&base);
+        for s in brun.client.sent.iter().filter(|s| s.label.starts_with("Extra")) {
+            for stall_s in [17u64, 20, 33, 40] {
+                for o in [1usize, 2, s.plain.len() / 2, s.plain.len() - 1] {
+                    if o >= 1 && o < s.plain.len() {
+                        cases.push(Case {
+                            class: format!("long-stall/{}@{o}/{stall_s}s", s.label),
+                            shape: format!("read/stall-of-keep-alive-periods-inside-frame/{}", frame_class(&s.label)),
+                            base: base.clone(),
+                            variant: with_split(&base, s.index, vec![(o, Duration::from_secs(stall_s))]),
+                        });
+                    }
+                }
+            }
+        }
+    }
+
     // F8: a client that pipelines instead of waiting for replies (frames coalesce in the socket
     // buffer, also across the switch to encryption): same trace as the reactive client
     for (bi, spec) in bases().iter().enumerate() {
